@@ -15,6 +15,8 @@
 import VotelibProofs.Lemmas.Biprop
 import VotelibProofs.Lemmas.BipropInit
 import VotelibProofs.Lemmas.BipropRefusal
+import VotelibProofs.Lemmas.BipropNoCrash
+import VotelibProofs.Lemmas.BipropTermination
 namespace VL.C07
 open VL VL.Biprop Finset
 
@@ -730,6 +732,186 @@ theorem evaluate_refusal_justified {div : Nat → Rat} {q : Rat} (hdiv : Signpos
         simp only at h
         exact ⟨ps, tgt, hps, Or.inr ⟨rfl, rfl⟩, key tgt h⟩
 
+/-! ### Part 4 — crash-freedom of the port -/
+
+/-- **One pass cannot crash.**  The consistency invariant of the loop state is `stateOk` (decidable: seat matrix of the
+    shape of the vote matrix, i.e. every district / party key present; positive multipliers; every cell between its
+    signposts); it is established by the initialisation (`initState_consistent`) and preserved by every pass
+    (`transfer_preserves_inv`, `update_preserves_inv`).  From such a state an iteration either succeeds or raises
+    `VotingSystemError`: the `KeyError` of `_augment_result` (popping an empty label set, taking a seat from an empty
+    cell) and the `ZeroDivisionError` of `_adj_coef` are unreachable. -/
+theorem step_crash_free {q : Rat} (hq0 : 0 ≤ q) {V : Mat Rat} {tgt : List Nat} {s : State}
+    (hok : stateOk q V s = true) :
+    (∃ r, step q ord V tgt s = .ok r) ∨ step q ord V tgt s = .error .votingSystemError := by
+  obtain ⟨hs, hinv⟩ := stateOk_iff.mp hok
+  exact step_no_crash hq0 hs hinv
+
+/-- **The loop cannot crash**: from a consistent state the only errors of a run are the refusal and running out of fuel. -/
+theorem run_crash_free {q : Rat} (hq0 : 0 ≤ q) (hq1 : q < 1) {V : Mat Rat} {tgt : List Nat} (hV : votesOk V = true) :
+    ∀ (fuel : Nat) (s : State) (nt : Nat) (ups : List Rat) (e : Err),
+      stateOk q V s = true → run q ord V tgt fuel s nt ups = .error e →
+      e = .votingSystemError ∨ e = .other "OutOfFuel"
+  | 0, _, _, _, e, _, h => by simp only [run, Except.error.injEq] at h; exact Or.inr h.symm
+  | fuel+1, s, nt, ups, e, hok, h => by
+    obtain ⟨hs, hinv⟩ := stateOk_iff.mp hok
+    simp only [run] at h
+    rcases step_crash_free (ord := ord) (tgt := tgt) hq0 hok with ⟨r, hr⟩ | hr
+    · rw [hr] at h
+      cases r with
+      | done => simp at h
+      | transfer s' =>
+        simp only at h
+        obtain ⟨hs', hinv', _⟩ := transfer_preserves_inv hs hinv hr
+        exact run_crash_free hq0 hq1 hV fuel s' _ _ e (stateOk_iff.mpr ⟨hs', hinv'⟩) h
+      | update s' cf =>
+        simp only at h
+        obtain ⟨hx, _, _, hinv'⟩ := update_preserves_inv hq1 hV hinv hr
+        exact run_crash_free hq0 hq1 hV fuel s' _ _ e (stateOk_iff.mpr ⟨by rw [hx]; exact hs, hinv'⟩) h
+    · rw [hr] at h
+      simp only [Except.error.injEq] at h
+      exact Or.inl h.symm
+
+/-- **The ported evaluator cannot crash** (both rules, any size): its only errors are the refusal, running out of fuel,
+    and the two declared outcomes of the initialisation (`ValueError` of `HighestAverages` for zero seats / no candidate,
+    a tie in a marginal apportionment — outside the property's domain). -/
+theorem evaluate_crash_free {div : Nat → Rat} {q : Rat} (hdiv : SignpostDiv div q) {V : Mat Rat} {total fuel : Nat}
+    {rows : Option (List Nat)} {e : Err} (hV : votesOk V = true) (hpos : hasVotes V = true)
+    (h : evaluate div q ord V total rows fuel = .error e) :
+    e = .votingSystemError ∨ e = .other "OutOfFuel" ∨ e = .other "ValueError" ∨ e = .other "MarginalTie" := by
+  unfold evaluate at h
+  cases hs0 : initState div q V total with
+  | error e' =>
+    rw [hs0] at h
+    simp only [Except.error.injEq] at h
+    subst h
+    rcases initState_error_eq hs0 with h1 | h1
+    · exact Or.inr (Or.inr (Or.inl h1))
+    · exact Or.inr (Or.inr (Or.inr h1))
+  | ok s0 =>
+    rw [hs0] at h
+    simp only at h
+    have hok := initState_ok hdiv hV hpos hs0
+    cases rows with
+    | some l =>
+      simp only at h
+      rcases run_crash_free hdiv.q_nonneg hdiv.q_lt_one hV fuel s0 0 [] e hok h with h1 | h1
+      · exact Or.inl h1
+      · exact Or.inr (Or.inl h1)
+    | none =>
+      simp only at h
+      cases hd : districtSeats div V total with
+      | error e' =>
+        rw [hd] at h
+        simp only [Except.error.injEq] at h
+        subst h
+        rcases districtSeats_error_eq hd with h1 | h1
+        · exact Or.inr (Or.inr (Or.inl h1))
+        · exact Or.inr (Or.inr (Or.inr h1))
+      | ok tgt =>
+        rw [hd] at h
+        simp only at h
+        rcases run_crash_free hdiv.q_nonneg hdiv.q_lt_one hV fuel s0 0 [] e hok h with h1 | h1
+        · exact Or.inl h1
+        · exact Or.inr (Or.inl h1)
+
+/-! ### Part 5 — termination of the port -/
+
+/-- **Transfer passes are counted by the flaw count.**  A transfer lowers `flaw` = Σ_i |seats of district i − target i|
+    by exactly 2 and an update leaves it alone. -/
+theorem transfer_lowers_flaw {q : Rat} {V : Mat Rat} {tgt : List Nat} {s s' : State}
+    (hok : shapeOk s.x V.length (nCols V) = true) (h : step q ord V tgt s = .ok (.transfer s')) :
+    flaw tgt s'.x V.length + 2 = flaw tgt s.x V.length := transfer_flaw hok h
+
+theorem update_keeps_flaw {q : Rat} {V : Mat Rat} {tgt : List Nat} {s s' : State} {c : Rat}
+    (h : step q ord V tgt s = .ok (.update s' c)) : flaw tgt s'.x V.length = flaw tgt s.x V.length := update_flaw h
+
+/-- **Every pass lowers the termination measure** `potential` = (flaw / 2) · (m + n + 2) + room left for labels:
+    a transfer lowers the flaw count, a multiplier update enlarges the labelling of the next pass (the cell that
+    attains the adjustment coefficient becomes a tie) or lets it reach an under-represented district. -/
+theorem pass_lowers_potential {q : Rat} (hq : q = 0 ∨ q = 1/2) {V : Mat Rat} {tgt : List Nat} {s : State}
+    (hV : votesOk V = true) (hcov : ordCovers ord V = true) (hok : stateOk q V s = true) :
+    (∀ s', step q ord V tgt s = .ok (.transfer s') → potential q ord V tgt s' < potential q ord V tgt s) ∧
+    (∀ s' c, step q ord V tgt s = .ok (.update s' c) → potential q ord V tgt s' < potential q ord V tgt s) := by
+  obtain ⟨hs, hinv⟩ := stateOk_iff.mp hok
+  exact ⟨fun s' h => transfer_potential hs h,
+         fun s' c h => update_potential hq (votesOk_nonneg hV) hcov hinv h⟩
+
+/-- **The loop terminates.**  From a consistent state, with more fuel than the measure of the state, a run ends — with a
+    seat matrix or with the refusal; it never runs out of fuel.  The measure is at most
+    `(flaw / 2 + 1) · (districts + parties + 2)` (`potential_le`). -/
+theorem run_terminates {q : Rat} (hq : q = 0 ∨ q = 1/2) {V : Mat Rat} {tgt : List Nat}
+    (hV : votesOk V = true) (hcov : ordCovers ord V = true) :
+    ∀ (fuel : Nat) (s : State) (nt : Nat) (ups : List Rat),
+      stateOk q V s = true → potential q ord V tgt s < fuel →
+      (∃ o, run q ord V tgt fuel s nt ups = .ok o) ∨ run q ord V tgt fuel s nt ups = .error .votingSystemError
+  | 0, _, _, _, _, hf => by omega
+  | fuel+1, s, nt, ups, hok, hf => by
+    have hq0 : 0 ≤ q := by rcases hq with rfl | rfl <;> norm_num
+    have hq1 : q < 1 := by rcases hq with rfl | rfl <;> norm_num
+    obtain ⟨hs, hinv⟩ := stateOk_iff.mp hok
+    obtain ⟨hT, hU⟩ := pass_lowers_potential (ord := ord) (tgt := tgt) hq hV hcov hok
+    simp only [run]
+    rcases step_crash_free (ord := ord) (tgt := tgt) hq0 hok with ⟨r, hr⟩ | hr
+    · rw [hr]
+      cases r with
+      | done => exact Or.inl ⟨_, rfl⟩
+      | transfer s' =>
+        simp only
+        obtain ⟨hs', hinv', _⟩ := transfer_preserves_inv hs hinv hr
+        have := hT s' hr
+        exact run_terminates hq hV hcov fuel s' _ _ (stateOk_iff.mpr ⟨hs', hinv'⟩) (by omega)
+      | update s' cf =>
+        simp only
+        obtain ⟨hx, _, _, hinv'⟩ := update_preserves_inv hq1 hV hinv hr
+        have := hU s' cf hr
+        exact run_terminates hq hV hcov fuel s' _ _ (stateOk_iff.mpr ⟨by rw [hx]; exact hs, hinv'⟩) (by omega)
+    · rw [hr]; exact Or.inr rfl
+
+/-- **The ported evaluator terminates**: with fuel above `(flaw₀ / 2 + 1) · (districts + parties + 2)`, where `flaw₀` is the
+    flaw count of the initial party-proportional solution, `evaluate` never reports `OutOfFuel` — it returns a seat
+    matrix (correct by `evaluate_sound`), refuses (justified by `evaluate_refusal_justified`) or reports one of the two
+    declared outcomes of the initialisation. -/
+theorem evaluate_terminates {div : Nat → Rat} {q : Rat} (hdiv : SignpostDiv div q) (hq : q = 0 ∨ q = 1/2)
+    {V : Mat Rat} {total fuel : Nat} {rows : Option (List Nat)} (hV : votesOk V = true) (hpos : hasVotes V = true)
+    (hcov : ordCovers ord V = true)
+    (hfuel : ∀ s0 tgt, initState div q V total = .ok s0 →
+      (rows = some tgt ∨ (rows = none ∧ districtSeats div V total = .ok tgt)) →
+      (flaw tgt s0.x V.length / 2 + 1) * (V.length + nCols V + 2) < fuel) :
+    evaluate div q ord V total rows fuel ≠ .error (.other "OutOfFuel") := by
+  intro h
+  unfold evaluate at h
+  cases hs0 : initState div q V total with
+  | error e =>
+    rw [hs0] at h
+    simp only [Except.error.injEq] at h
+    rcases initState_error_eq hs0 with h1 | h1 <;> rw [h1] at h <;> simp at h
+  | ok s0 =>
+    rw [hs0] at h
+    simp only at h
+    have hok := initState_ok hdiv hV hpos hs0
+    have key : ∀ tgt, (rows = some tgt ∨ (rows = none ∧ districtSeats div V total = .ok tgt)) →
+        run q ord V tgt fuel s0 0 [] ≠ .error (.other "OutOfFuel") := by
+      intro tgt htgt hrun
+      have hf := lt_of_le_of_lt (potential_le (ord := ord) q V tgt s0) (hfuel s0 tgt hs0 htgt)
+      rcases run_terminates hq hV hcov fuel s0 0 [] hok hf with ⟨o, ho⟩ | hr
+      · rw [ho] at hrun; simp at hrun
+      · rw [hr] at hrun; simp at hrun
+    cases rows with
+    | some l =>
+      simp only at h
+      exact key l (Or.inl rfl) h
+    | none =>
+      simp only at h
+      cases hd : districtSeats div V total with
+      | error e =>
+        rw [hd] at h
+        simp only [Except.error.injEq] at h
+        rcases districtSeats_error_eq hd with h1 | h1 <;> rw [h1] at h <;> simp at h
+      | ok tgt =>
+        rw [hd] at h
+        simp only at h
+        exact key tgt (Or.inr ⟨rfl, hd⟩) h
+
 /-! ### the party order `all_parties` -/
 
 private theorem fa_inner (row : List Bool) : ∀ (k : Nat) (acc : List Nat),
@@ -859,5 +1041,13 @@ example : (match evaluate Gen.Divisor.d_hondt 0 [0, 1] [[5, 0], [3, 9]] 6 (some 
 example : infeasibleCheckL [[5, 0], [3, 9]] [4, 2] [2, 4] [0] [0] = true := by decide +kernel
 /-- the cut is rejected for a feasible instance -/
 example : infeasibleCheckL [[5, 0], [3, 9]] [2, 4] [2, 4] [0] [0] = false := by decide +kernel
+
+/-- the termination measure on the two examples: flaw 2 each; measure 7 resp. 14, far below the fuel 100 used above
+    (the runs take 2 resp. 5 passes) -/
+example : (initState Gen.Divisor.d_hondt 0 exV 10).toOption.map
+    (fun s0 => (potential 0 [0, 1] exV [2, 6, 2] s0, flaw [2, 6, 2] s0.x 3)) = some (7, 2) := by decide +kernel
+example : (initState Gen.Divisor.sainte_lague (1/2) exW 9).toOption.map
+    (fun s0 => (potential (1/2) [0, 1, 2] exW [3, 2, 4] s0, flaw [3, 2, 4] s0.x 3)) = some (14, 2) := by decide +kernel
+example : ordCovers [0, 1] exV = true ∧ ordCovers [0, 1, 2] exW = true := by decide +kernel
 
 end VL.C07
